@@ -692,11 +692,12 @@ class C16(ThreadCheck):
 
 class C17(ThreadCheck):
     lean_module = 'CppUtil.Props.C17'
-    theorems = ['CppUtil.Props.c17_list_shape', 'CppUtil.Props.c17_read_back']
+    theorems = ['CppUtil.Props.c17_list_shape', 'CppUtil.Props.c17_read_back', 'CppUtil.Props.c17_sequential_available', 'CppUtil.Props.c17_sequential_stable']
     categories = ['list']
     kinds = ('epoch',)
     long_share = 0.15
-    deep_share = 0.06
+    deep_share = 0.12
+    seq_share = 0.3
 
     def crash_relevant(self):
         return True
@@ -704,7 +705,8 @@ class C17(ThreadCheck):
 
 class C20(ThreadCheck):
     lean_module = 'CppUtil.Props.C20'
-    theorems = ['CppUtil.Props.c20_published_exact', 'CppUtil.Props.c20_published_unique', 'CppUtil.Props.c20_min_is_smallest']
+    theorems = ['CppUtil.Props.c20_published_exact', 'CppUtil.Props.c20_published_unique', 'CppUtil.Props.c20_min_is_smallest',
+                'CppUtil.Props.c20_good_consts', 'CppUtil.Props.c20_history_total', 'CppUtil.Props.c20_forward_after_history', 'CppUtil.Props.c20_prune_exact']
     categories = ['seqlist', 'seqnodes']
     kinds = ('epoch',)
     seq_share = 1.0
